@@ -362,12 +362,12 @@ def _alr_contract(name, languages_ty, props, general=False):
                                                     f"all(n >= len(st0) or {_ST}[n] == st0[n] for n in range(len({_ST})))"]},
         globals={"fresh": _native_fresh},
         # ghost: the statements at entry, and the list of statements created so far
-        ghost_vars={"st0": (List(Ref("FeaStmt")), "feature.statements"), "new": (List(Ref("FeaStmt")), "[]")},
+        ghost_vars={"st0": (List(Ref("FeaStmt")), "feature.statements"), "new": (List(Ref("FeaStmt")), "[]"), **({"gl": (List(STR), "[]")} if general else {})},
         ghost={
             "feature.statements.append(ast.ScriptStatement(script))": ["new = new + [feature.statements[len(feature.statements) - 1]]"],
             "feature.statements.append(ast.LanguageStatement('dflt', include_default=True))": ["new = new + [feature.statements[len(feature.statements) - 1]]"],
             "feature.statements.append(ast.LookupReferenceStatement(lookup))": ["new = new + [feature.statements[len(feature.statements) - 1]]"],
-            **({"feature.statements.append(ast.LanguageStatement(language, include_default=True))": ["new = new + [feature.statements[len(feature.statements) - 1]]"]} if general else {}),
+            **({"feature.statements.append(ast.LanguageStatement(language, include_default=True))": ["new = new + [feature.statements[len(feature.statements) - 1]]", "gl = gl + [language]"]} if general else {}),
         },
     )
 
@@ -382,11 +382,13 @@ def _alr_loops(general):
     loops = {"for lookup in lookups#3": Loop(index="j", invariants={
         "shape": f"{_ST} == st0 + new and len(new) == 2 + j", "untouched": untouched, "new": new, "head": head, "refs": refs.format(n="j")})}
     if general:
-        nd = "k5_nondflt(languages, q)"
+        # gl (ghost): the non-dflt languages met so far = k5_nondflt(languages, q); the statements are related to gl position
+        # by position (gl grows by `+ [language]`, a syntactic concatenation), not to the recursive function directly
         loops["for language in languages or ()"] = Loop(index="q", invariants={
-            "shape": f"{_ST} == st0 + new and len(new) == 2 + len(lookups) + len({nd})", "untouched": untouched, "new": new, "head": head,
+            "shape": f"{_ST} == st0 + new and len(new) == 2 + len(lookups) + len(gl)", "untouched": untouched, "new": new, "head": head,
             "refs": refs.format(n="len(lookups)"),
-            "langs": f"all(n < 2 + len(lookups) or (new[n].kind == 'language' and new[n].include_default and new[n].language == {nd}[n - 2 - len(lookups)]) for n in range(len(new)))",
+            "gl": "gl == k5_nondflt(languages, q)",
+            "langs": "all(n < 2 + len(lookups) or (new[n].kind == 'language' and new[n].include_default and new[n].language == gl[n - 2 - len(lookups)]) for n in range(len(new)))",
         })
     return loops
 
